@@ -586,7 +586,8 @@ func (s *Slice) checkWithNoRecovery(node *NodeInfo, downAfterNoAlive int, second
 	masterStatus, err := s.GetMasterStatus()
 	if err != nil || masterStatus == StatusDown {
 		log.Warn("[ns:%s, %s:%s] check slave status with no strategy, Get master status: %s, get master err: %v, duration: %v", s.Namespace, s.Cfg.Name, node.Address, masterStatus.String(), err, time.Since(start))
-		if node.IsStatusDown() {
+		// 主库下线时只跳过主从同步检查: 本轮探活失败 (conn == nil) 的从库保持原状态, 与步骤 5 一致
+		if conn != nil && node.IsStatusDown() {
 			node.SetStatusUp()
 			log.Warn("[ns:%s, %s:%s] check slave status with no strategy, Marked as StatusUp success, Slave recovered from down, (case master down), duration: %v", s.Namespace, s.Cfg.Name, node.Address, time.Since(start))
 		}
@@ -634,7 +635,8 @@ func (s *Slice) checkWithHardRecovery(node *NodeInfo, downAfterNoAlive int, seco
 	masterStatus, err := s.GetMasterStatus()
 	if err != nil || masterStatus == StatusDown {
 		log.Warn("[ns:%s, %s:%s] check slave status with hard strategy, Get master status: %s, get master err: %v, duration: %v", s.Namespace, s.Cfg.Name, node.Address, masterStatus.String(), err, time.Since(start))
-		if node.IsStatusDown() {
+		// 主库下线时只跳过主从同步检查: 本轮探活失败 (conn == nil) 的从库保持原状态, 与步骤 5 一致
+		if conn != nil && node.IsStatusDown() {
 			node.SetStatusUp()
 			log.Warn("[ns:%s, %s:%s] check slave status with hard strategy, Marked as StatusUp success, Slave recovered from down, (case master down), duration: %v", s.Namespace, s.Cfg.Name, node.Address, time.Since(start))
 		}
